@@ -322,7 +322,7 @@ pub fn check_recipe(r: &Recipe, stats: &mut Stats) -> Result<(), Failure> {
         stats.count("histories-with-rejected-growth");
     }
     if (reached && shrank && regrew) || rejected {
-        stats.nontrivial.push(gen::mix(r.a ^ gen::mix(r.b ^ r.k[0] as u64) ^ r.digits.iter().fold(0u64, |h, &d| h * 11 + d as u64)));
+        stats.nontrivial.push(gen::mix(r.a ^ gen::mix(r.b ^ r.k[0] as u64) ^ r.digits.iter().fold(0u64, |h, &d| h.wrapping_mul(11).wrapping_add(d as u64))));
         stats.sample("history", || json!({"operations": ops.len(), "first_ops": ops.iter().take(12).map(|o| format!("{:?}", o).chars().take(60).collect::<String>()).collect::<Vec<_>>(),
             "reached_capacity": reached, "shrank_then_regrew": regrew, "rejected_growth": rejected}));
     }
